@@ -123,3 +123,31 @@ Definition attrs_validb (e : env) (defs : list attdef) (doc : adoc) : bool :=
   tnodup (flat_map id_toks (all_effective defs doc)) &&
   forallb (fun t => tmem t (flat_map id_toks (all_effective defs doc)))
           (flat_map ref_toks (all_effective defs doc)).
+
+(** ---- several element types ------------------------------------------------------------------------
+    a document is a list of (element type, attributes); [dm ty] is the ATTLIST of type [ty].  IDs are unique
+    over the whole document and IDREFs resolve against all of them, whatever the element types. *)
+Definition tdoc : Type := list (nat * elem).
+
+Fixpoint lookup_defs (l : list (nat * list attdef)) (ty : nat) : list attdef :=
+  match l with
+  | [] => []
+  | (k, d) :: r => if Nat.eqb k ty then d else lookup_defs r ty
+  end.
+
+Definition all_effective_t (dm : nat -> list attdef) (doc : tdoc) : list (option attdef * value) :=
+  flat_map (fun x => effective (dm (fst x)) (snd x)) doc.
+
+Definition attrs_valid_t (e : env) (dm : nat -> list attdef) (doc : tdoc) : Prop :=
+  Forall (fun x => required_ok (dm (fst x)) (snd x) = true) doc /\
+  Forall (fun x => eff_ok e x = true) (all_effective_t dm doc) /\
+  NoDup (flat_map id_toks (all_effective_t dm doc)) /\
+  (forall t, In t (flat_map ref_toks (all_effective_t dm doc)) ->
+             In t (flat_map id_toks (all_effective_t dm doc))).
+
+Definition attrs_validb_t (e : env) (dm : nat -> list attdef) (doc : tdoc) : bool :=
+  forallb (fun x => required_ok (dm (fst x)) (snd x)) doc &&
+  forallb (eff_ok e) (all_effective_t dm doc) &&
+  tnodup (flat_map id_toks (all_effective_t dm doc)) &&
+  forallb (fun t => tmem t (flat_map id_toks (all_effective_t dm doc)))
+          (flat_map ref_toks (all_effective_t dm doc)).
